@@ -2,5 +2,5 @@ SPECIFICATION Spec
 CONSTANTS
   FixedGroups <- CodeFixed
   Scenarios <- MCScenarios
-INVARIANT GPrint
+INVARIANTS RaceOnlyAtDeviation LockDiscipline
 CHECK_DEADLOCK FALSE
